@@ -7,7 +7,7 @@ from hypothesis import strategies as st
 import onl.netdev.red_port as red_mod
 import onl.netdev.wire as wire_mod
 from onl.netdev import FairPacketSwitch, NSplitter, Port, SimplePacketSwitch, TokenBucket, TwoRateTokenBucket, Wire
-from onl.netdev.demux import FIBDemux, FlowDemux
+from onl.netdev.demux import FIBDemux, FlowDemux, RandomDemux
 from onl.netdev.red_port import REDPort
 from onl.packet import DistPacketGenerator, Packet, PacketSink
 from onl.scheduler import DRR, RR, SP, VC, WFQ, WRR
@@ -18,7 +18,7 @@ from ..core.netlab import F, Lab
 from ..runner import Facet, Property
 
 ELEMENT_TYPES = ["port", "port0", "red", "wire", "wire_loss", "tb", "trtb", "SP", "WFQ", "VC", "DRR", "RR", "WRR",
-                 "flowdemux", "fibdemux", "simpleswitch", "fairswitch"]
+                 "flowdemux", "fibdemux", "simpleswitch", "fairswitch", "randomdemux"]
 
 
 class Elem:
@@ -71,6 +71,15 @@ class Elem:
             self.dev = RR(env, rate, list(flows))
         elif t == "WRR":
             self.dev = WRR(env, rate, w)
+        elif t == "randomdemux":
+            # weights are relative (as random.choices takes them): any positive table, normalised or not
+            self.single_out = False
+            n = spec.get("nouts", 3)
+            self.branch_taps = [lab.tap(f"{name}.out{i}") for i in range(n)]
+            self.dev = RandomDemux(list(self.branch_taps), list(spec.get("probs", [1, 1, 1, 1]))[:n])
+            self.route = lambda pkt: None
+            self.any_out = True
+            self.outs = list(self.branch_taps)
         elif t in ("flowdemux", "fibdemux", "simpleswitch", "fairswitch"):
             self.single_out = False
             n = spec.get("nouts", 3)
@@ -189,7 +198,7 @@ class Elem:
                 if r.snap != ri.snap:
                     raise Violation("C08.fields", f"{self.name} ({self.type}) changed identifying fields {ri.snap} -> {r.snap}",
                                     "C08.fields/" + self.type)
-                if not self.single_out and self.route(r.pkt) is not o:
+                if not self.single_out and not getattr(self, "any_out", False) and self.route(r.pkt) is not o:
                     raise Violation("C08.route", f"{self.name} ({self.type}) sent flow {r.snap[1]} to {o.name}", "C08.route/" + self.type)
         # per-flow FIFO over all outputs in exit order (per table epoch when the forwarding table was moved: packets routed to
         # a new output port legitimately overtake those still queued at the old one)
@@ -529,6 +538,9 @@ def elem_spec(types=ELEMENT_TYPES):
             base.update(strcls=st.sampled_from([0, 0, 1, 2]))
         if t == "VC":
             base.update(vt0=st.booleans())
+        if t == "randomdemux":
+            base.update(nouts=st.integers(1, 4), probs=st.sampled_from([[0.25, 0.25, 0.25, 0.25], [0.3, 0.3, 0.1, 0.1], [1, 2, 3, 4],
+                                                                        [0.125, 0.25, 0.125, 0.0625], [5, 1, 1, 1]]))
         if t in ("fibdemux", "fairswitch"):
             base.update(ends=st.sampled_from([0, 0, 1, 2, 3]))
             base.update(refib=st.sampled_from([0, 0, 1, 129, 513, 1025, 2049]), refib_inplace=st.booleans())
